@@ -11,7 +11,7 @@ import json, os, shutil, subprocess, sys, tempfile, importlib.util, concurrent.f
 
 HERE = os.path.dirname(os.path.abspath(__file__))
 VERIF = os.path.dirname(HERE)
-OLINT = os.path.join(VERIF, "bin", "olint")
+OLINT = os.environ.get("OLINT_BIN", os.path.join(VERIF, "bin", "olint"))
 ENV = dict(os.environ, GOFLAGS="-mod=mod", GOPROXY="off", GOSUMDB="off", GOTOOLCHAIN="local")
 ENV.pop("GOWORK", None)
 
